@@ -3808,6 +3808,8 @@ static int needs_channel(const char *op)
                                "procfd",  "procsel",  "flushwrites", "fds", "run",
                                "getsock", "qlen",     "servers", "opts",
                                "setlocalip4", "setlocalip6", "setlocaldev",
+                               "setserversl", "setserversp", "setserverscsv",
+                               "getservers", "dup",
                                NULL };
   int                i;
   for (i = 0; ops[i]; i++) {
@@ -3914,6 +3916,120 @@ static void exec_op(const char *optext, int in_cb)
     srv_add_csv(namearg(argv[1]));
     rc = ares_set_servers_ports_csv(G.channel, namearg(argv[1]));
     ev("SETSERVERS rc=%d", rc);
+  } else if (strcmp(op, "setserversl") == 0 || strcmp(op, "setserversp") == 0) {
+    /* legacy ares_set_servers / ares_set_servers_ports: <addr[/udp/tcp],...> or - */
+    struct ares_addr_node      *ln = NULL, **lt = &ln;
+    struct ares_addr_port_node *pn = NULL, **pt = &pn;
+    int                         ports = strcmp(op, "setserversp") == 0;
+    int                         rc;
+    char                       *save2 = NULL, *tok;
+    char                       *copy;
+    if (argc != 2) {
+      ev("BADOP args: %s", optext);
+      goto done;
+    }
+    copy = xstrdup(namearg(argv[1]));
+    for (tok = strtok_r(copy, ",", &save2); tok; tok = strtok_r(NULL, ",", &save2)) {
+      char            addr[128];
+      int             udp = 0, tcp = 0;
+      struct in_addr  a4;
+      struct in6_addr a6;
+      int             fam;
+      if (sscanf(tok, "%127[^/]/%d/%d", addr, &udp, &tcp) < 1) {
+        continue;
+      }
+      if (inet_pton(AF_INET, addr, &a4) == 1) {
+        fam = AF_INET;
+      } else if (inet_pton(AF_INET6, addr, &a6) == 1) {
+        fam = AF_INET6;
+      } else {
+        continue;
+      }
+      srv_add_csv(addr);
+      if (ports) {
+        struct ares_addr_port_node *nd = xmalloc(sizeof(*nd));
+        memset(nd, 0, sizeof(*nd));
+        nd->family   = fam;
+        nd->udp_port = udp;
+        nd->tcp_port = tcp;
+        if (fam == AF_INET) {
+          memcpy(&nd->addr.addr4, &a4, sizeof(a4));
+        } else {
+          memcpy(&nd->addr.addr6, &a6, sizeof(a6));
+        }
+        *pt = nd;
+        pt  = &nd->next;
+      } else {
+        struct ares_addr_node *nd = xmalloc(sizeof(*nd));
+        memset(nd, 0, sizeof(*nd));
+        nd->family = fam;
+        if (fam == AF_INET) {
+          memcpy(&nd->addr.addr4, &a4, sizeof(a4));
+        } else {
+          memcpy(&nd->addr.addr6, &a6, sizeof(a6));
+        }
+        *lt = nd;
+        lt  = &nd->next;
+      }
+    }
+    free(copy);
+    rc = ports ? ares_set_servers_ports(G.channel, pn) : ares_set_servers(G.channel, ln);
+    ev("%s rc=%d", ports ? "SETSERVERSP" : "SETSERVERSL", rc);
+    while (ln) {
+      struct ares_addr_node *nx = ln->next;
+      free(ln);
+      ln = nx;
+    }
+    while (pn) {
+      struct ares_addr_port_node *nx = pn->next;
+      free(pn);
+      pn = nx;
+    }
+  } else if (strcmp(op, "setserverscsv") == 0) {
+    int rc;
+    if (argc != 2) {
+      ev("BADOP args: %s", optext);
+      goto done;
+    }
+    srv_add_csv(namearg(argv[1]));
+    rc = ares_set_servers_csv(G.channel, namearg(argv[1]));
+    ev("SETSERVERSCSV rc=%d", rc);
+  } else if (strcmp(op, "getservers") == 0) {
+    /* legacy ares_get_servers / ares_get_servers_ports */
+    struct ares_addr_node      *ln = NULL;
+    struct ares_addr_port_node *pn = NULL;
+    int                         rc = ares_get_servers(G.channel, &ln);
+    sb_t                        sb;
+    char                        ip[64];
+    sb_init(&sb);
+    sb_printf(&sb, "GETSERVERS rc=%d list=[", rc);
+    for (struct ares_addr_node *nd = ln; rc == ARES_SUCCESS && nd; nd = nd->next) {
+      inet_ntop(nd->family, &nd->addr, ip, sizeof(ip));
+      sb_printf(&sb, "%s%s", nd == ln ? "" : ",", ip);
+    }
+    sb_puts(&sb, "]");
+    ev_sb(&sb);
+    sb_free(&sb);
+    ares_free_data(ln);
+    rc = ares_get_servers_ports(G.channel, &pn);
+    sb_init(&sb);
+    sb_printf(&sb, "GETSERVERSP rc=%d list=[", rc);
+    for (struct ares_addr_port_node *nd = pn; rc == ARES_SUCCESS && nd; nd = nd->next) {
+      inet_ntop(nd->family, &nd->addr, ip, sizeof(ip));
+      sb_printf(&sb, "%s%s/%d/%d", nd == pn ? "" : ",", ip, nd->udp_port, nd->tcp_port);
+    }
+    sb_puts(&sb, "]");
+    ev_sb(&sb);
+    sb_free(&sb);
+    ares_free_data(pn);
+  } else if (strcmp(op, "dup") == 0) {
+    /* ares_dup, then destroy the copy */
+    ares_channel_t *copy = NULL;
+    int             rc   = ares_dup(&copy, G.channel);
+    ev("DUP rc=%d", rc);
+    if (rc == ARES_SUCCESS && copy != NULL) {
+      ares_destroy(copy);
+    }
   } else if (strcmp(op, "setsortlist") == 0) {
     int rc;
     if (argc != 2) {
